@@ -68,11 +68,13 @@ def run_store(t, v, ops, lazy=False):
         return 'p.ctor=err'
     views = [(t, x)]
     parent = {0: None}
+    hook_key = {}
     snaps = []
     out = []
     for k, op in enumerate(ops):
         status = 'ok'
         cost = None
+        refreshed_ = None
         # everything is hashed before the op (so that the op's own hashing cost is visible); in the lazy
         # variant nothing is hashed or read until the very end
         if not lazy:
@@ -86,6 +88,7 @@ def run_store(t, v, ops, lazy=False):
                 if isinstance(ct, str) or kind(ct) in ('Bv', 'Bl') or cv is None:
                     raise ValueError("not a mutable child view")
                 parent[len(views)] = int(op[1])
+                hook_key[len(views)] = int(op[2])
                 views.append((ct, cv))
             elif o in ('mut', 'bad'):
                 vt, vv = views[int(op[1])]
@@ -93,11 +96,34 @@ def run_store(t, v, ops, lazy=False):
                 while parent.get(top) is not None:
                     top = parent[top]
 
+                old_top = views[top][1].get_backing()
+                old_self = vv.get_backing()
+                # every enclosing view on the way up, its backing before the op, and the generalized index (in ITS tree) of the
+                # position its child writes back to
+                links = []
+                try:
+                    q = int(op[1])
+                    while parent.get(q) is not None:
+                        pq = parent[q]
+                        pt_, pv_ = views[pq]
+                        kq = hook_key[q]
+                        gk = 2 if kind(pt_) == 'union' else int(type(pv_).key_to_static_gindex('f%d' % kq if kind(pt_) == 'cont' else kq))
+                        links.append((pq, pv_.get_backing(), gk))
+                        q = pq
+                except Exception:
+                    links = None
                 def run():
                     apply_op(vt, vv, op[2])
                     if not lazy:
                         views[top][1].hash_tree_root()
                 _, cost = P.hashes_during(run)
+                if not lazy and o == 'mut' and links is not None:
+                    # (1) in every enclosing view: the siblings along the path to the position its child wrote back to are the
+                    #     very objects they were in that view's previous backing; (2) in the mutated view itself, for a write
+                    #     of one basic value: everything off the changed chunk's path
+                    refreshed_ = sum(P.offpath_unshared(ob, views[pq][1].get_backing(), gk) for pq, ob, gk in links)
+                    if writes_one_chunk(vt, op[2]):
+                        refreshed_ += refreshed(old_self, vv.get_backing())
             elif o == 'assign':
                 pt, pv = views[int(op[1])]
                 ct, cv = views[int(op[3])]
@@ -118,6 +144,27 @@ def run_store(t, v, ops, lazy=False):
                 del uv
                 gc.collect()
                 apply_op(vt, vv, op[4])
+            elif o == 'mutt':
+                # view.a.b.c.<op> — every view on the way is a temporary; route `path`: the target is obtained with a Path
+                import gc
+                pt, pv = views[int(op[1])]
+                keys = [int(q) for q in op[4]]
+                if op[3] == 'path':
+                    from remerkleable.core import Path
+                    pth = Path(type(pv))
+                    tt = pt
+                    for q in keys:
+                        pth = pth / P.mk_key(tt, q)
+                        tt = P.nav_sexp_type(tt, q)
+                    tv = pth.navigate_view(pv)
+                else:
+                    tt, tv = pt, pv
+                    for q in keys:
+                        tt, tv = child_of(tt, tv, q)
+                if isinstance(tt, str) or kind(tt) in ('Bv', 'Bl') or tv is None:
+                    raise ValueError("not a mutable view")
+                gc.collect()
+                apply_op(tt, tv, op[5])
             elif o == 'tmpsum':
                 # a throw-away copy of the view gets one element replaced by a SUMMARY-backed view of the same element
                 # (same root, no content below it): nothing that is held may change
@@ -158,6 +205,8 @@ def run_store(t, v, ops, lazy=False):
             continue
         if cost is not None and status == 'ok':
             out.append('%d.cost=%d' % (k, cost))
+        if refreshed_ is not None and status == 'ok':
+            out.append('%d.refreshed=%d' % (k, refreshed_))
         out.append('%d.views=%s' % (k, ','.join(view_str(vt, vv) for vt, vv in views)))
         out.append('%d.snaps=%s' % (k, ','.join(snap_str(st, sn) for st, sn in snaps)))
         out.append('%d.hashes=%s' % (k, ''.join(hash_ok(vv) for vt, vv in views)))
@@ -167,6 +216,41 @@ def run_store(t, v, ops, lazy=False):
         out.append('end.snaps=%s' % ','.join(snap_str(st, sn) for st, sn in snaps))
         out.append('end.views=%s' % ','.join(view_str(vt, vv) for vt, vv in views))
     return ';'.join(out)
+
+
+def writes_one_chunk(vt, op):
+    """a write of ONE basic value / bit (nothing below the written chunk is new)"""
+    if op[0] != 'set':
+        return False
+    k = kind(vt)
+    if k in ('bv', 'bl'):
+        return True
+    if k in ('vec', 'list'):
+        return isinstance(vt[1], str)
+    if k == 'cont':
+        i = int(op[1])
+        return i < len(vt) - 1 and isinstance(vt[1 + i], str)
+    return False
+
+
+def refreshed(old, new):
+    """positions off the changed path at which the new backing holds a node with the same root as, but not the very object
+    of, the old backing (descending only where the roots differ: along the changed path)"""
+    bad = 0
+    stack = [(old, new)]
+    while stack:
+        a, b = stack.pop()
+        if a is b:
+            continue
+        if bytes(a.merkle_root()) == bytes(b.merkle_root()):
+            if a is not old:
+                bad += 1        # (at the top: a write of the value that was there already)
+            continue
+        if a.is_leaf() or b.is_leaf():
+            continue
+        stack.append((a.get_left(), b.get_left()))
+        stack.append((a.get_right(), b.get_right()))
+    return bad
 
 
 def hash_ok(view):
